@@ -25,6 +25,16 @@ Oracle: independent of the model — after every faulted run: `warnings.showwarn
         type), limit, filters, error state equal their values right before the call; a warning raised afterwards
         reaches the application's hook; foreign warnings raised during the call were shown exactly once by the hook
         current at call time and by no replaced hook; the solution equals a freshly built twin's.
+        `kwargs_histories`: the per-call **kwargs of one solve belong to that solve.  On fixed LPs with hand-computed
+        optima, generated LPs (reference: scipy.optimize.linprog on matrices written down from the recipe) and the NLP
+        shapes: [warm-up] → solve(method, **kw) with kw making the attempt fail (callback=… on HiGHS, integrality of the
+        wrong length, unknown / duplicate keyword, x0 of the wrong length), stop early (options={'maxiter': 0}, maxiter=1,
+        loose tol, a callback raising ValueError / StopIteration / KeyboardInterrupt) or ask another question (c= /
+        bounds= / A_ub= / A_eq= overridden, integrality=[1…], x0 far away, use_hessian=False, strict=True), through
+        Problem.solve or solve_lp / solve_scipy directly, the application overwriting the passed objects afterwards →
+        the plain solve(method') of the same Problem, and of a fresh one built afterwards, must be the optimum / equal a
+        twin solved before the attempt; linprog / minimize must receive exactly what they receive for a fresh twin (no
+        foreign keyword, equal arrays, x0, tol, options); cached LP data bit-identical to a fresh extraction; globals kept.
 """
 from __future__ import annotations
 
@@ -1577,6 +1587,565 @@ def state_histories(rep, rng, n, focus=None, stop_at_first=False):
                 return
 
 
+# ----------------------------------------------------------------------------- per-call **kwargs of one solve
+#
+# `Problem.solve(method, **kwargs)` forwards `kwargs` to scipy.optimize.linprog / minimize (and x0 / tol / maxiter /
+# use_hessian to solve_scipy).  They belong to THAT call.  A solve whose kwargs make it fail (callback=… on HiGHS,
+# integrality of the wrong length, an unknown keyword, a duplicate of an argument optyx passes itself), stop early
+# (options={'maxiter': 0}, maxiter=1, a loose tol, a callback raising StopIteration / ValueError / KeyboardInterrupt)
+# or answer a different question (c= / bounds= / A_ub= overridden, integrality=[1,…], x0=far away) is a failed /
+# interrupted / foreign attempt: the next plain solve() of the same Problem — and of any other Problem in the process —
+# must be what it would have been without it.  Judged by: the hand-computed optimum of the fixed shapes, a direct
+# scipy.optimize.linprog call on matrices written down from the recipe (never through optyx), a twin solved BEFORE the
+# attempt and a twin built AFTER it, what optyx hands to linprog / minimize on the later call (no foreign key, the
+# same arrays as for a fresh twin) and the cached LP data (bit-identical to a fresh extraction).
+
+_CONT = "continuous"
+# fixed LPs with the optimum computed by hand (vertex enumeration; every optimum is unique)
+KW_LP_SHAPES = {
+    # min 2x + 3y + 5,  x + y >= 1,  x, y >= 0                       -> (1, 0): 7
+    "E": {"spec": base.SHAPES["E"]["spec"], "opt": 7.0, "at": {"x": 1.0, "y": 0.0}},
+    # max k + 2y + 1,  k + y <= 3,  0 <= k <= 5 (integer, relaxed),  0 <= y <= 2   -> (1, 2): 6
+    "IL": {"spec": INT_LP_SHAPE, "opt": 6.0, "at": {"k": 1.0, "y": 2.0}},
+    # max 2u + v,  u + v <= 4,  u - v <= 2,  u, v >= 0:  (0,0)=0 (2,0)=4 (3,1)=7 (0,4)=4        -> (3, 1): 7
+    "M": {"spec": {"vars": [["u", 0.0, None, _CONT], ["v", 0.0, None, _CONT]], "sense": "max",
+                   "obj": [[2, [[0, 1]]], [1, [[1, 1]]]],
+                   "cons": [[[[1, [[0, 1]]], [1, [[1, 1]]]], "<=", 4.0], [[[1, [[0, 1]]], [-1, [[1, 1]]]], "<=", 2.0]]},
+          "opt": 7.0, "at": {"u": 3.0, "v": 1.0}},
+    # min z9 + 2 z10 - z2 + 1,  z9 + z10 + z2 == 3,  z9 - z10 >= -1,  0 <= . <= 2:  z2 = 2, then z9 = 1, z10 = 0   -> 0
+    # (spec order z9, z10, z2 is neither the lexicographic nor the natural order of the names)
+    "Q3": {"spec": {"vars": [["z9", 0.0, 2.0, _CONT], ["z10", 0.0, 2.0, _CONT], ["z2", 0.0, 2.0, _CONT]], "sense": "min",
+                    "obj": [[1, [[0, 1]]], [2, [[1, 1]]], [-1, [[2, 1]]], [1, []]],
+                    "cons": [[[[1, [[0, 1]]], [1, [[1, 1]]], [1, [[2, 1]]]], "==", 3.0],
+                             [[[1, [[0, 1]]], [-1, [[1, 1]]]], ">=", -1.0]]},
+           "opt": 0.0, "at": {"z9": 1.0, "z10": 0.0, "z2": 2.0}},
+}
+KW_LP_ROUTE = ["auto", "linprog", "highs", "highs-ds", "highs-ipm"]
+# kwargs of the attempt on the LP route: name -> what linprog makes of it (for the reader; never used by the oracle)
+KW_LP_KINDS = [
+    "callback-raises", "callback-noop", "callback-not-callable",           # HiGHS: NotImplementedError -> FAILED
+    "integrality-long", "integrality-ones", "integrality-mixed",           # ValueError / a MILP instead of the LP
+    "options-maxiter0", "options-time0", "options-unknown", "options-presolve-off", "options-disp",
+    "x0", "unknown-keyword", "nlp-tol", "nlp-maxiter", "nlp-use_hessian",   # TypeError from linprog -> FAILED
+    "override-c", "override-c-zero", "override-c-long", "override-bounds-tight", "override-bounds-pair",
+    "override-bounds-crossed", "override-A_ub", "override-b_ub-long", "override-A_eq-infeasible", "strict-true",
+    "several",                                                              # callback + options + integrality at once
+]
+# kwargs that do not change what is asked: the attempt itself must already give the optimum
+KW_LP_BENIGN = {"options-presolve-off", "options-disp", "x0", "options-unknown"}
+KW_NLP_SHAPES = dict(REAL_SHAPES, E=base.SHAPES["E"]["spec"], I=INT_SHAPE)
+KW_NLP_METHODS = {"A": ["SLSQP", "trust-constr", "auto", "COBYLA"], "B": ["SLSQP", "trust-constr"],
+                  "C": ["L-BFGS-B", "trust-constr", "Newton-CG", "Nelder-Mead", "TNC", "auto"],
+                  "Q": ["SLSQP", "trust-constr", "auto"], "E": ["SLSQP", "trust-constr"], "I": ["SLSQP", "auto", "trust-constr"]}
+KW_NLP_KINDS = [
+    "tol-loose", "tol-tiny", "maxiter-1", "maxiter-0", "x0-far", "x0-long", "x0-nan", "callback-raises", "callback-stop",
+    "callback-interrupt", "callback-noop", "unknown-keyword", "options-duplicate", "use_hessian-false", "jac-duplicate",
+    "bounds-duplicate", "constraints-duplicate", "hess-user", "lp-integrality", "strict-true", "several",
+]
+_LINPROG_KEYS = {"c", "A_ub", "b_ub", "A_eq", "b_eq", "bounds", "method"}
+_MINIMIZE_KEYS = {"fun", "x0", "method", "jac", "hess", "bounds", "constraints", "tol", "options"}
+
+
+def _kw_raise_value(*a, **k):
+    raise ValueError("the application's monitoring callback failed")
+
+
+def _kw_raise_stop(*a, **k):
+    raise StopIteration
+
+
+def _kw_raise_interrupt(*a, **k):
+    raise KeyboardInterrupt
+
+
+def _kw_noop(*a, **k):
+    return None
+
+
+def kw_rand_lp(rng):
+    """a small LP recipe that is feasible (the box midpoint satisfies every row) and bounded (every variable boxed);
+    dyadic data, coefficients of moderate size: well conditioned"""
+    n = rng.randint(2, 4)
+    names = rng.choice([["v0", "v1", "v2", "v3"], ["x10", "x2", "x1", "x01"], ["a[10]", "a[9]", "a", "a[1]"],
+                        ["hold", "ship", "waste", "audit"], ["y2z10", "y2z9", "y10z1", "y1"]])[:n]
+    vars_, mid = [], []
+    for i in range(n):
+        lb = rng.choice([0.0, 0.0, -1.0, 1.0, -2.0])
+        w = rng.choice([1.0, 2.0, 4.0])
+        vars_.append([names[i], lb, lb + w, _CONT])
+        mid.append(lb + w / 2)
+    obj = [[rng.choice([1.0, 2.0, -1.0, 0.5, 3.0, -2.0]), [[i, 1]]] for i in range(n)]
+    if rng.random() < 0.5:
+        obj.insert(rng.randint(0, n), [rng.dy(-3, 3), []])
+    cons = []
+    for _ in range(rng.randint(0, 3)):
+        row = [[rng.choice([1.0, -1.0, 2.0, 0.5]), [[i, 1]]] for i in range(n) if rng.random() < 0.75] or [[1.0, [[0, 1]]]]
+        at = sum(c * mid[f[0][0]] for c, f in row)
+        op = rng.choice(["<=", ">=", "<=", ">=", "=="])
+        slack = rng.choice([0.0, 0.5, 1.0])
+        cons.append([row, op, at + slack if op == "<=" else at - slack if op == ">=" else at])
+    return {"vars": vars_, "sense": rng.choice(["min", "max"]), "obj": obj, "cons": cons}
+
+
+def kw_lp_matrices(spec):
+    """the recipe written down as linprog data by hand (spec order; nothing of optyx is used)"""
+    n = len(spec["vars"])
+    c, c0 = [0.0] * n, 0.0
+    for coef, fac in spec["obj"]:
+        if fac:
+            c[fac[0][0]] += float(coef)
+        else:
+            c0 += float(coef)
+    A_ub, b_ub, A_eq, b_eq = [], [], [], []
+    for row, op, rhs in spec["cons"]:
+        a = [0.0] * n
+        for coef, fac in row:
+            a[fac[0][0]] += float(coef)
+        if op == "<=":
+            A_ub.append(a), b_ub.append(float(rhs))
+        elif op == ">=":
+            A_ub.append([-t for t in a]), b_ub.append(-float(rhs))
+        else:
+            A_eq.append(a), b_eq.append(float(rhs))
+    return c, c0, A_ub, b_ub, A_eq, b_eq, [(lb, ub) for _, lb, ub, _ in spec["vars"]]
+
+
+def kw_lp_reference(spec, linprog):
+    """-> the optimal objective value by a direct call of SciPy's own linprog on the hand-written matrices, or None"""
+    c, c0, A_ub, b_ub, A_eq, b_eq, bounds = kw_lp_matrices(spec)
+    sgn = -1.0 if spec["sense"] == "max" else 1.0
+    r = linprog(c=[sgn * t for t in c], A_ub=A_ub or None, b_ub=b_ub or None, A_eq=A_eq or None, b_eq=b_eq or None,
+                bounds=bounds, method="highs")
+    return sgn * float(r.fun) + c0 if r.success else None
+
+
+def kw_recipe_violation(spec, values):
+    """largest violation of the recipe's rows and boxes at `values` (by name), judged outside optyx"""
+    xs = [values[v[0]] for v in spec["vars"]]
+    worst = 0.0
+    for (_, lb, ub, _), x in zip(spec["vars"], xs):
+        worst = max(worst, (lb - x) if lb is not None else 0.0, (x - ub) if ub is not None else 0.0)
+    for row, op, rhs in spec["cons"]:
+        d = base.poly_eval(row, xs) - rhs
+        worst = max(worst, (d if op == "<=" else -d if op == ">=" else abs(d)) / (1.0 + abs(rhs)))
+    return worst
+
+
+def kw_make(name, spec, route, as_array=False):
+    """the kwargs of one attempt, fresh objects on every call"""
+    n = len(spec["vars"])
+    arr = (lambda v: np.array(v, dtype=float)) if as_array else (lambda v: v)
+    far = [ub if ub is not None else (lb + 3.0 if lb is not None else 3.0) for _, lb, ub, _ in spec["vars"]]
+    if route == "lp":
+        n_ub = len([1 for _, op, _ in spec["cons"] if op != "=="])
+        table = {
+            "callback-raises": lambda: {"callback": _kw_raise_value},
+            "callback-noop": lambda: {"callback": _kw_noop},
+            "callback-not-callable": lambda: {"callback": 0},
+            "integrality-long": lambda: {"integrality": arr([1.0] * (n + 1) + [0.0])},
+            "integrality-ones": lambda: {"integrality": arr([1.0] * n)},
+            "integrality-mixed": lambda: {"integrality": arr([float(i % 2) for i in range(n)])},
+            "options-maxiter0": lambda: {"options": {"maxiter": 0}},
+            "options-time0": lambda: {"options": {"time_limit": 0.0}},
+            "options-unknown": lambda: {"options": {"verbosity_of_the_app": 3}},
+            "options-presolve-off": lambda: {"options": {"presolve": False}},
+            "options-disp": lambda: {"options": {"disp": False}},
+            "x0": lambda: {"x0": arr(far)},
+            "unknown-keyword": lambda: {"warm_start_basis": [0] * n},
+            "nlp-tol": lambda: {"tol": 1e-3},
+            "nlp-maxiter": lambda: {"maxiter": 1},
+            "nlp-use_hessian": lambda: {"use_hessian": False},
+            "override-c": lambda: {"c": arr([float((-1) ** i * (i + 1)) for i in range(n)])},
+            "override-c-zero": lambda: {"c": arr([0.0] * n)},
+            "override-c-long": lambda: {"c": arr([1.0] * (n + 2))},
+            "override-bounds-tight": lambda: {"bounds": [(0.25, 0.25)] * n},
+            "override-bounds-pair": lambda: {"bounds": (0.0, 0.5)},
+            "override-bounds-crossed": lambda: {"bounds": [(1.0, 0.0)] * n},
+            "override-A_ub": lambda: {"A_ub": arr([[1.0] * n]), "b_ub": arr([-1000.0])},
+            "override-b_ub-long": lambda: {"b_ub": arr([0.0] * (n_ub + 3))},
+            "override-A_eq-infeasible": lambda: {"A_eq": arr([[1.0] * n]), "b_eq": arr([1000.0])},
+            "strict-true": lambda: {"strict": True},
+            "several": lambda: {"callback": _kw_raise_value, "options": {"maxiter": 0, "presolve": False},
+                                "integrality": arr([1.0] * (n + 1)), "x0": arr(far)},
+        }
+    else:
+        table = {
+            "tol-loose": lambda: {"tol": 0.5},
+            "tol-tiny": lambda: {"tol": 1e-300},
+            "maxiter-1": lambda: {"maxiter": 1},
+            "maxiter-0": lambda: {"maxiter": 0},
+            "x0-far": lambda: {"x0": np.array(far, dtype=float)},
+            "x0-long": lambda: {"x0": np.zeros(n + 2)},
+            "x0-nan": lambda: {"x0": np.full(n, np.nan)},
+            "callback-raises": lambda: {"callback": _kw_raise_value},
+            "callback-stop": lambda: {"callback": _kw_raise_stop},
+            "callback-interrupt": lambda: {"callback": _kw_raise_interrupt},
+            "callback-noop": lambda: {"callback": _kw_noop},
+            "unknown-keyword": lambda: {"warm_start_basis": [0] * n},
+            "options-duplicate": lambda: {"options": {"maxiter": 1}},
+            "use_hessian-false": lambda: {"use_hessian": False},
+            "jac-duplicate": lambda: {"jac": None},
+            "bounds-duplicate": lambda: {"bounds": [(0.25, 0.25)] * n},
+            "constraints-duplicate": lambda: {"constraints": ()},
+            "hess-user": lambda: {"hess": _kw_raise_value},
+            "lp-integrality": lambda: {"integrality": [1.0] * n},
+            "strict-true": lambda: {"strict": True},
+            "several": lambda: {"tol": 0.5, "maxiter": 1, "x0": np.array(far, dtype=float), "callback": _kw_raise_stop},
+        }
+    return table[name]()
+
+
+def _kw_scribble(kw):
+    """the application reuses / overwrites the objects it passed, after the call returned"""
+    for v in kw.values():
+        if isinstance(v, dict):
+            v.update(maxiter=0, time_limit=0.0)
+        elif isinstance(v, np.ndarray):
+            v[...] = 0.0 if v.dtype.kind == "f" else 0
+        elif isinstance(v, list):
+            for i, e in enumerate(v):
+                if isinstance(e, list):
+                    e[:] = [0.0] * len(e)
+                else:
+                    v[i] = (0.0, 0.0) if isinstance(e, tuple) else 0.0
+
+
+def _kw_same_arg(a, b):
+    if a is None or b is None:
+        return a is None and b is None
+    if isinstance(a, str) or isinstance(b, str) or isinstance(a, dict) or isinstance(b, dict):
+        return a == b
+    try:
+        x, y = np.asarray(a, dtype=float), np.asarray(b, dtype=float)
+    except (TypeError, ValueError):
+        return a == b
+    return x.shape == y.shape and bool(np.array_equal(x, y, equal_nan=True))
+
+
+def kw_call(P, method, kw, record=None, direct=False):
+    """one P.solve(method=method, **kw) — or, direct: solve_lp(P, …) / solve_scipy(P, …), the public solver entry
+    points — with scipy's linprog / minimize observed (not altered).
+    -> dict(solution | exception, globals_changed); record: list receiving the keyword dicts handed to linprog / minimize"""
+    import scipy.optimize as SO
+
+    import optyx.solvers.scipy_solver as SS
+    from optyx.solvers.lp_solver import solve_lp
+
+    o_lp, o_min = SO.linprog, SS.minimize
+
+    def snap(v):
+        return v.copy() if isinstance(v, np.ndarray) else (list(v) if isinstance(v, (list, tuple)) else
+                                                           dict(v) if isinstance(v, dict) else v)
+
+    def w_lp(*a, **k):
+        if record is not None:
+            record.append(("linprog", len(a), {key: snap(v) for key, v in k.items()}))
+        return o_lp(*a, **k)
+
+    def w_min(*a, **k):
+        if record is not None:
+            record.append(("minimize", len(a), {key: snap(v) for key, v in k.items()}))
+        return o_min(*a, **k)
+
+    out = {}
+    rl0 = sys.getrecursionlimit()
+    with warnings.catch_warnings(record=True), np.errstate(all="ignore"):
+        warnings.simplefilter("always")
+        hook0, err0, filt0 = warnings.showwarning, np.geterr(), list(warnings.filters)
+        SO.linprog, SS.minimize = w_lp, w_min
+        try:
+            try:
+                if not direct:
+                    out["solution"] = P.solve(method=method, **kw)
+                elif method in KW_LP_ROUTE:
+                    out["solution"] = solve_lp(P, method=None if method in ("auto", "linprog") else method, **kw)
+                else:
+                    out["solution"] = SS.solve_scipy(P, method=method, **kw)
+            except BaseException as e:  # noqa: BLE001
+                out["exception"] = e
+        finally:
+            SO.linprog, SS.minimize = o_lp, o_min
+        what = []
+        if warnings.showwarning is not hook0:
+            what.append("warnings.showwarning")
+        if np.geterr() != err0:
+            what.append("numpy error state")
+        if list(warnings.filters) != filt0:
+            what.append("warnings.filters")
+    if sys.getrecursionlimit() != rl0:
+        what.append("recursion limit")
+        sys.setrecursionlimit(rl0)
+    out["globals_changed"] = what
+    return out
+
+
+def _kw_show(out):
+    if "solution" in out:
+        s = out["solution"]
+        return [s.status.name, s.objective_value, dict(s.values), str(s.message)[:120]]
+    return ["raised", type(out["exception"]).__name__, str(out["exception"])[:120]]
+
+
+def _kw_compare_records(rec, ref, allowed):
+    """what optyx handed to the solver on the later plain call vs what it hands over for a fresh twin"""
+    if len(rec) != len(ref):
+        return f"{len(rec)} solver calls, a fresh twin makes {len(ref)}"
+    for (name, npos, k), (rname, rnpos, rk) in zip(rec, ref):
+        if name != rname or npos != rnpos:
+            return f"calls {name}/{npos} positional, a fresh twin calls {rname}/{rnpos}"
+        extra = sorted(set(k) - allowed)
+        if extra:
+            return f"{name} received the foreign keyword(s) {extra} on a plain solve()"
+        if set(k) != set(rk):
+            return f"{name} received the keywords {sorted(k)}, for a fresh twin {sorted(rk)}"
+        for key in sorted(k):
+            if key in ("fun", "jac", "hess", "callback"):
+                if (k[key] is None) != (rk[key] is None):
+                    return f"{name}({key}=…) is {'None' if k[key] is None else 'set'}, for a fresh twin the opposite"
+            elif key == "constraints":
+                if len(k[key]) != len(rk[key]) or [c["type"] for c in k[key]] != [c["type"] for c in rk[key]]:
+                    return f"{name}(constraints=…) differs from a fresh twin's"
+            elif not _kw_same_arg(k[key], rk[key]):
+                return f"{name}({key}={k[key]!r}) on a plain solve(), for a fresh twin {key}={rk[key]!r}"[:300]
+    return None
+
+
+def kw_cache_report(P, spec):
+    """cache_report + the cached LP data (c, A_ub, b_ub, A_eq, b_eq, sense, variables, c0 and bounds) are what a fresh
+    extraction of an untouched twin gives"""
+    from optyx.analysis import LinearProgramExtractor
+
+    cr = cache_report(P) or lp_cache_report(P, spec)
+    if cr is None and P._lp_cache is not None:
+        ref = LinearProgramExtractor().extract(base.build_problem(spec)[0])
+        if list(P._lp_cache.bounds) != list(ref.bounds):
+            cr = f"_lp_cache.bounds {P._lp_cache.bounds!r} differ from a fresh extraction: {ref.bounds!r}"[:240]
+    return cr
+
+
+def kwargs_history(data):
+    """data: {route: lp|nlp, shape | spec, warm: method|None, attempts: [{method, kw, array, scribble, direct}], final: method}
+    -> (failure dict | None, number of solves, tags)"""
+    import scipy.optimize as SO
+
+    route = data["route"]
+    fixed = KW_LP_SHAPES.get(data.get("shape")) if route == "lp" else None
+    spec = data.get("spec") or (fixed["spec"] if fixed else KW_NLP_SHAPES[data["shape"]])
+    final = data["final"]
+    solves, tags = 0, []
+    allowed = _LINPROG_KEYS if final in KW_LP_ROUTE and route == "lp" else _MINIMIZE_KEYS
+
+    def fail(what, **more):
+        d = {"what": what}
+        d.update(more)
+        return d, solves, tags
+
+    # before anything else happens in this history: the untouched twin (for the fixed shapes: solved once per
+    # (shape, method), before the first attempt of any history that uses it)
+    bkey = ("kwargs", route, data.get("shape"), final) if data.get("spec") is None else None
+    if bkey is not None and bkey in _BASELINES:
+        pre_sol, pre_rec, ref_obj = _BASELINES[bkey]
+        if pre_sol is None:
+            return None, solves, tags
+    else:
+        pre_rec = []
+        pre = kw_call(base.build_problem(spec)[0], final, {}, pre_rec)
+        solves += 1
+        pre_sol = pre.get("solution")      # None: the plain solve itself raises on this shape / method: not this family's business
+        ref_obj = kw_lp_reference(spec, SO.linprog) if route == "lp" else None
+        if pre_sol is not None and route == "lp" and final in KW_LP_ROUTE:
+            # the baseline itself is judged against the recipe (hand value / SciPy on hand-written matrices) below
+            if ref_obj is None:
+                pre_sol = None
+            elif fixed is not None and abs(ref_obj - fixed["opt"]) > 1e-9:
+                raise RuntimeError(f"harness: hand-computed optimum {fixed['opt']} of {data['shape']} vs SciPy {ref_obj}")
+        elif pre_sol is not None:
+            again = kw_call(base.build_problem(spec)[0], final, {})
+            solves += 1
+            if "solution" not in again or not same_solution(pre_sol, again["solution"]):
+                pre_sol = None             # this (shape, method) is not repeatable to 1e-9: no baseline to compare with
+        if bkey is not None:
+            _BASELINES[bkey] = (pre_sol, pre_rec, ref_obj)
+        if pre_sol is None:
+            return None, solves, tags
+
+    def judge_plain(sol, who):
+        """a plain solve(method=final): the optimum (independent reference), and the untouched twin's answer"""
+        if route == "lp" and final in KW_LP_ROUTE:
+            if sol.status.name != "OPTIMAL":
+                return f"{who}: status {sol.status.name} ({str(sol.message)[:100]!r}); the LP has the optimum {ref_obj}"
+            if sol.objective_value is None or abs(sol.objective_value - ref_obj) > 1e-7 * (1.0 + abs(ref_obj)):
+                return f"{who}: objective {sol.objective_value}; scipy.optimize.linprog on the recipe's matrices gives {ref_obj}"
+            if set(sol.values) != {v[0] for v in spec["vars"]}:
+                return f"{who}: values for {sorted(sol.values)}"
+            viol = kw_recipe_violation(spec, sol.values)
+            if viol > 1e-7:
+                return f"{who}: the reported optimum violates the recipe by {viol:.3g}"
+            if fixed is not None and any(abs(sol.values[k] - v) > 1e-7 for k, v in fixed["at"].items()):
+                return f"{who}: optimum at {dict(sol.values)}; by hand {fixed['at']}"
+        if not same_solution(sol, pre_sol):
+            return (f"{who}: {[sol.status.name, sol.objective_value, dict(sol.values)]} differs from the twin that never "
+                    f"saw the attempt: {[pre_sol.status.name, pre_sol.objective_value, dict(pre_sol.values)]}")
+        return None
+
+    bad = judge_plain(pre_sol, "a fresh problem's plain solve")
+    if bad is not None:
+        return fail(bad)
+
+    P = base.build_problem(spec)[0]
+    if data.get("warm"):
+        w = kw_call(P, data["warm"], {})
+        solves += 1
+        if w["globals_changed"]:
+            return fail(f"{w['globals_changed']} changed by the warm-up solve")
+    for att in data["attempts"]:
+        kroute = "lp" if (att["method"] in KW_LP_ROUTE and route == "lp") else "nlp"
+        kw = kw_make(att["kw"], spec, kroute, att.get("array", False))
+        out = kw_call(P, att["method"], kw, direct=bool(att.get("direct")) and (kroute == "lp" or att["method"] != "auto"))
+        solves += 1
+        first = "raised:" + type(out["exception"]).__name__ if "exception" in out else out["solution"].status.name
+        tags.append(f"kwargs:{kroute}:{att['kw']}:{first}")
+        if out["globals_changed"]:
+            return fail(f"{out['globals_changed']} changed by solve(method={att['method']!r}, **{att['kw']})",
+                        attempt=_kw_show(out))
+        if isinstance(out.get("exception"), BaseException) and not isinstance(out.get("exception"), Exception) \
+                and att["kw"] != "callback-interrupt":
+            return fail(f"solve(**{att['kw']}) raised {type(out['exception']).__name__}", attempt=_kw_show(out))
+        if kroute == "lp" and att["kw"] in KW_LP_BENIGN and att["method"] == final:
+            if "solution" not in out:
+                return fail(f"solve(**{att['kw']}) raised", attempt=_kw_show(out))
+            b2 = judge_plain(out["solution"], f"solve(method={att['method']!r}, **{att['kw']}) (kwargs that ask the same question)")
+            if b2 is not None:
+                return fail(b2, attempt=_kw_show(out))
+        cr = kw_cache_report(P, spec)
+        if cr is not None:
+            return fail(f"problem caches invalid after solve(**{att['kw']}): " + cr, attempt=_kw_show(out))
+        if att.get("scribble"):
+            _kw_scribble(kw)
+        del kw
+    rec = []
+    nxt = kw_call(P, final, {}, rec)
+    solves += 1
+    last = _kw_show(out) if data["attempts"] else None
+    if nxt["globals_changed"]:
+        return fail(f"{nxt['globals_changed']} changed by the plain solve after the attempt")
+    if "solution" not in nxt:
+        return fail(f"the plain solve(method={final!r}) after the attempt raised {type(nxt['exception']).__name__}: "
+                    f"{nxt['exception']}"[:300], attempt=last)
+    bad = judge_plain(nxt["solution"], f"plain solve(method={final!r}) of the SAME problem after the attempt(s)")
+    if bad is not None:
+        return fail(bad, attempt=last, message=str(nxt["solution"].message)[:160])
+    bad = _kw_compare_records(rec, pre_rec, allowed)
+    if bad is not None:
+        return fail("after the attempt(s), on the plain solve of the same problem optyx " + bad, attempt=last)
+    cr = kw_cache_report(P, spec)
+    if cr is not None:
+        return fail("problem caches invalid after the plain solve that followed the attempt: " + cr, attempt=last)
+    # another problem of the same process, built after the attempt
+    post_rec = []
+    post = kw_call(base.build_problem(spec)[0], final, {}, post_rec)
+    solves += 1
+    if "solution" not in post:
+        return fail(f"a fresh problem built after the attempt: solve raised {type(post['exception']).__name__}", attempt=last)
+    bad = judge_plain(post["solution"], "plain solve of a FRESH problem built after the attempt(s)")
+    if bad is None:
+        bad = _kw_compare_records(post_rec, pre_rec, allowed)
+        bad = bad and "for a fresh problem built after the attempt(s) optyx " + bad
+    if bad is not None:
+        return fail(bad, attempt=last)
+    return None, solves, tags
+
+
+def gen_kwargs_history(rng, i, thorough=False):
+    """i-th history: the kinds are enumerated (every kind on every fixed shape), everything else is drawn"""
+    n_lp = len(KW_LP_KINDS) * len(KW_LP_SHAPES)
+    cyc = i % (n_lp + n_lp // 2 + len(KW_NLP_KINDS) * 2)
+    if cyc < n_lp + n_lp // 2:
+        kind = KW_LP_KINDS[cyc % len(KW_LP_KINDS)]
+        if cyc < n_lp:
+            d = {"route": "lp", "shape": list(KW_LP_SHAPES)[(cyc // len(KW_LP_KINDS)) % len(KW_LP_SHAPES)]}
+        else:
+            d = {"route": "lp", "spec": kw_rand_lp(rng)}
+        m = KW_LP_ROUTE[(i + i // len(KW_LP_KINDS)) % len(KW_LP_ROUTE)]
+        d["warm"] = rng.choice([None, None, m, "auto", "highs-ds", "SLSQP"])
+        d["attempts"] = [{"method": m, "kw": kind, "array": rng.random() < 0.5, "scribble": rng.random() < 0.3,
+                          "direct": rng.random() < 0.2}]
+        if rng.random() < 0.25:
+            d["attempts"].append({"method": rng.choice(KW_LP_ROUTE), "kw": rng.choice(KW_LP_KINDS),
+                                  "array": rng.random() < 0.5, "scribble": rng.random() < 0.3})
+        if rng.random() < 0.12:   # routes interleaved: an NLP-route attempt on the linear model in between
+            d["attempts"].append({"method": "SLSQP", "kw": rng.choice(["maxiter-1", "callback-raises", "x0-long", "tol-loose"])})
+        d["final"] = rng.choice([m, m, "auto", rng.choice(KW_LP_ROUTE)])
+        return d
+    j = cyc - (n_lp + n_lp // 2)
+    kind = KW_NLP_KINDS[j % len(KW_NLP_KINDS)]
+    shape = rng.choice(list(KW_NLP_SHAPES))
+    ms = KW_NLP_METHODS[shape]
+    if not thorough and rng.random() < 0.85:      # trust-constr costs ≈ 0.1 s a solve: rare in the quick tier
+        ms = [t for t in ms if t != "trust-constr"]
+    m = rng.choice(ms)
+    d = {"route": "nlp", "shape": shape, "warm": rng.choice([None, None, m]),
+         "attempts": [{"method": m, "kw": kind, "scribble": rng.random() < 0.3, "direct": rng.random() < 0.2}], "final": m}
+    if rng.random() < 0.2:
+        d["attempts"].append({"method": m, "kw": rng.choice(KW_NLP_KINDS), "scribble": rng.random() < 0.3})
+    return d
+
+
+def shrink_kwargs(data):
+    """fewer attempts, no warm-up, no scribbling, the attempt's own method as the final one — while it still fails"""
+    bad = kwargs_history(data)[0]
+    if bad is None:
+        return data, None
+    changed = True
+    while changed:
+        changed = False
+        cands = []
+        if data.get("warm"):
+            cands.append(dict(data, warm=None))
+        if len(data["attempts"]) > 1:
+            cands += [dict(data, attempts=data["attempts"][:k] + data["attempts"][k + 1:]) for k in reversed(range(len(data["attempts"])))]
+        for k, a in enumerate(data["attempts"]):
+            if a.get("scribble") or a.get("array") or a.get("direct"):
+                cands.append(dict(data, attempts=data["attempts"][:k] + [dict(a, scribble=False, array=False, direct=False)] +
+                                  data["attempts"][k + 1:]))
+        for c in cands:
+            try:
+                b = kwargs_history(c)[0]
+            except Exception:  # noqa: BLE001
+                b = None
+            if b is not None:
+                data, bad, changed = c, b, True
+                break
+    return data, bad
+
+
+def kwargs_histories(rep, rng, n, thorough=False, stop_at_first=False, offset=0):
+    for i in range(offset, offset + n):
+        data = gen_kwargs_history(rng, i, thorough)
+        bad, solves, tags = kwargs_history(data)
+        rep.evaluations += solves
+        for t in tags:
+            rep.histogram[t] = rep.histogram.get(t, 0) + 1
+        if tags:
+            rep.nontrivial.add(hash(("kwargs", str(data))))
+        if bad is not None:
+            if not any(f.get("kind_of_case") == "kwargs" for f in rep.oracle_failures):
+                small, b2 = shrink_kwargs(data)
+                if b2 is not None:
+                    b2["shrunk_from"] = data
+                    data, bad = small, b2
+            bad.update({"kind_of_case": "kwargs", "data": data,
+                        "legend": "P = the problem of KW_LP_SHAPES / KW_NLP_SHAPES[data.shape] (or data.spec, c06 recipe "
+                                  "format); optional P.solve(method=warm); for each attempt P.solve(method=attempt.method, "
+                                  "**kw_make(attempt.kw)) (direct: through solve_lp / solve_scipy; array: array-likes as ndarray; scribble: the application "
+                                  "overwrites the objects it passed after the call); then the plain P.solve(method=final) "
+                                  "is judged against the hand-computed / direct-linprog optimum and a twin that never saw "
+                                  "the attempt; see kwargs_history"})
+            rep.oracle_failures.append(bad)
+            if stop_at_first:
+                return
+
+
 def run(ctx) -> core.Report:
     rng = ctx["rng"]
     thorough = ctx["tier"] == "thorough" or ctx["escalate"]
@@ -1586,10 +2155,18 @@ def run(ctx) -> core.Report:
                            "solver entry (k ≤ 5 quick, ≤ 12 thorough); real linprog / extractor faults; histories in "
                            "which the application changes the display hook (8 kinds) / recursion limit / warnings filters "
                            "/ NumPy error state between real solves of the same problem(s), with faults at every seam; "
+                           "histories in which an earlier solve of the same problem got per-call **kwargs (27 LP kinds, 21 "
+                           "NLP kinds: failing / interrupting / overriding) followed by a plain solve judged against the "
+                           "hand-computed / direct-linprog optimum, an untouched twin and what linprog / minimize receive; "
                            "non-trivial = "
                            "distinct runs in which the fault fired")
     # cheap and independent of the model: first.  A broken build / translation escalates the run to the thorough tier
     # (≈ 10 min): a concrete failing input found here ends it at once
+    kwargs_histories(rep, core.Rng(ctx["seed"] + 20208), 1200 if thorough else 200, thorough=thorough,
+                     stop_at_first=ctx["escalate"])
+    if ctx["escalate"] and rep.oracle_failures:
+        rep.notes.append("escalated run stopped at the first failing input (per-call kwargs histories)")
+        return rep
     state_histories(rep, core.Rng(ctx["seed"] + 20200), 1600 if thorough else 160, stop_at_first=ctx["escalate"])
     if ctx["escalate"] and rep.oracle_failures:
         rep.notes.append("escalated run stopped at the first failing input (state histories)")
@@ -1611,6 +2188,10 @@ def search(ctx, rep):
     # method, the fault at the k-th evaluation of every kind, every exception class
     # the mismatching cases along the history dimension: their shape and method, solved again after the application
     # changed the process-global state (cheap: a few seconds)
+    # per-call kwargs of an earlier solve (cheap: every kind on every fixed shape, then generated LPs, both routes)
+    kwargs_histories(r2, rng, 600, thorough=True, stop_at_first=True, offset=200)
+    if r2.oracle_failures:
+        return r2.oracle_failures[0]
     focus = []
     for m in rep.corr_mismatches:
         c = m.get("case", {})
@@ -1685,6 +2266,10 @@ def replay(payload) -> bool:
             if nxt != ref:
                 bad = {"what": "next solve differs from twin", "after_fault": nxt, "twin": ref}
         print(bad)
+        return bad is None
+    if kind == "kwargs":
+        bad, _, tags = kwargs_history(f["data"])
+        print(tags, bad)
         return bad is None
     if kind == "state":
         bad, _, _ = state_history(f["data"])
